@@ -620,6 +620,8 @@ class VariantBase(productmd.common.MetadataBase):
                 if variant in parents:
                     parent_uids = sorted([i.uid for i in parents])
                     raise ValueError("Dependency cycle detected; variant %s; parents: %s" % (variant.uid, parent_uids))
+            if old_parent is not None and old_parent is not self and any(i is variant for i in old_parent.variants.values()):
+                raise ValueError("Variant already belongs to another parent: %s" % variant.uid)
             self._check_unique_uids(variant)
             new_variant = self.variants.setdefault(variant_id, variant)
             if new_variant != variant:
@@ -646,6 +648,9 @@ class VariantBase(productmd.common.MetadataBase):
                 item = todo.pop()
                 if hasattr(item, "uid"):
                     known.setdefault(item.uid, []).append(item)
+                if item is not self and any(i is variant for i in item.variants.values()):
+                    # the very same object under a second holder would be in the forest twice
+                    raise ValueError("Variant already belongs to another parent: %s" % variant.uid)
                 todo.extend(item.variants.values())
         todo = [variant]
         while todo:
